@@ -14,10 +14,10 @@ NP = {"np": glob("numpy"), "pd": glob("pandas")}
 
 
 def check(ctx):
-    r011_frame(ctx, "R01.1")
-    r012_slicing(ctx, "R01.2")
-    r013_grouping(ctx)
-    r014_plumbing(ctx)
+    ctx.guard(r011_frame, ctx, "R01.1")
+    ctx.guard(r012_slicing, ctx, "R01.2")
+    ctx.guard(r013_grouping, ctx)
+    ctx.guard(r014_plumbing, ctx)
 
 
 def r011_frame(ctx, rule):
